@@ -13,7 +13,9 @@ SPEC_OFFSET = 10
 FN_NAMES = {1: "convert_protein_position_to_dna", 2: "Feature.get_sub_location_from_protein_coordinates",
             3: "Feature.from_biopython(codon_start) + sub-location + to_biopython",
             4: "Prepeptide.to_biopython (leader/core/tail locations)", 5: "TTAResults.new_feature_from_other",
-            6: "location.extract"}
+            6: "location.extract",
+            7: "CDSFeature.from_biopython(codon_start) + translation + sub-location + to_biopython",
+            8: "Record.from_biopython -> CDS (codon_start) + translation + sub-location + Record.to_biopython + reload"}
 STRAND_CODE = {1: 1, -1: -1, 0: 0, None: 2}
 CODE_STRAND = {v: k for k, v in STRAND_CODE.items()}
 BASES = "ACGT"
@@ -22,6 +24,7 @@ BASES = "ACGT"
 CLASS_SPANNING = "origin_spanning_gene_sublocation"
 CLASS_TTA = "tta_multi_exon"
 CLASS_CODON = "origin_spanning_codon_start"
+CLASS_OVERLAP = "overlapping_exons_sublocation"
 WHAT = {
     CLASS_SPANNING: ("sub-location of an origin-spanning gene is built by walking the exons in coordinate order instead "
                      "of transcription order: wrong nucleotides (or ValueError) for protein ranges of a gene that spans "
@@ -29,6 +32,11 @@ WHAT = {
     CLASS_CODON: ("codon_start 2 or 3 on a compound gene that spans the origin: the frameshift adjustment asserts that the "
                   "first listed exon starts at location.start (resp. ends at location.end) and raises AssertionError, so "
                   "the feature cannot be built (locations._adjust_location_by_offset via Feature.from_biopython)"),
+    CLASS_OVERLAP: ("sub-location inside a gene whose exons overlap by 1-2 bases (programmed frameshift, accepted in input "
+                    "records): the protein-to-DNA conversion counts the overlap as a negative gap and the exon walk stops "
+                    "at the first exon containing a coordinate, so ranges at or after the overlap get the wrong bases or "
+                    "fewer than three bases per residue (convert_protein_position_to_dna / "
+                    "Feature.get_sub_location_from_protein_coordinates)"),
     CLASS_TTA: ("TTA codon marker placed at start+offset / end-offset-3 ignores introns: for a multi-exon gene the marker "
                 "does not cover the codon found in the spliced sequence (TTAResults.new_feature_from_other)"),
 }
@@ -123,7 +131,80 @@ def impl(fn, args):
         seq = Seq("".join(BASES[b] for b in bases))
         got = str(mk_loc(parts).extract(seq))
         return [len(got)] + [BASES.index(c) for c in got]
+    if fn in (7, 8):
+        parts, codon_start, bases, _table, start, end, circular = args
+        return impl_load(fn, parts, codon_start, bases, start, end, circular)
     raise ValueError(fn)
+
+
+class ReloadMismatch(Exception):
+    """ the gene read back from Record.to_biopython() differs from the gene first loaded """
+
+
+def codon_table():
+    """ Biopython's table 11 (what Record.from_biopython uses for taxon bacteria) as the 64 residue codes of the
+        model's encoding: codon (a, b, c) at 16a + 4b + c, bases A=0 C=1 G=2 T=3, '*' for stop codons """
+    from Bio.Data import CodonTable
+    table = CodonTable.unambiguous_dna_by_id[11]
+    out = []
+    for a in BASES:
+        for b in BASES:
+            for c in BASES:
+                codon = a + b + c
+                out.append(ord("*") if codon in table.stop_codons else ord(table.forward_table[codon]))
+    return out
+
+
+def bio_location(parts):
+    """ a Biopython (not antismash) location, as the GenBank parser would deliver it """
+    from Bio.SeqFeature import FeatureLocation as BioFeatureLocation, CompoundLocation as BioCompoundLocation
+    built = [BioFeatureLocation(s, e, CODE_STRAND[st]) for s, e, st in parts]
+    return built[0] if len(built) == 1 else BioCompoundLocation(built)
+
+
+def impl_load(fn, parts, codon_start, bases, start, end, circular):
+    """ loads a CDS the way antiSMASH loads its input: fn 7 CDSFeature.from_biopython(SeqFeature, record=...),
+        fn 8 Record.from_biopython(SeqRecord) and, for writing out, Record.to_biopython() followed by a reload """
+    from Bio.Seq import Seq
+    from Bio.SeqFeature import SeqFeature
+    from Bio.SeqRecord import SeqRecord
+    from antismash.common.secmet import Record
+    from antismash.common.secmet.features import CDSFeature
+    seq = Seq("".join(BASES[b] for b in bases))
+    qualifiers = {"locus_tag": ["gene"]}
+    if codon_start >= 0:
+        qualifiers["codon_start"] = [str(codon_start)]
+    try:
+        if fn == 7:
+            record = Record(seq, transl_table=11)
+            cds = CDSFeature.from_biopython(SeqFeature(mk_loc(parts), type="CDS", qualifiers=qualifiers), record=record)
+        else:
+            bio = SeqRecord(seq, id="rec", name="rec", annotations={"molecule_type": "DNA"})
+            if circular:
+                bio.annotations["topology"] = "circular"
+            bio.features.append(SeqFeature(bio_location(parts), type="CDS", qualifiers=qualifiers))
+            record = Record.from_biopython(bio, taxon="bacteria")
+            (cds,) = record.get_cds_features()
+    except Exception as exc:  # pylint: disable=broad-except
+        return [1, err_code(exc)]
+    original = cds._original_codon_start  # pylint: disable=protected-access
+    out = [0] + enc_pyloc(cds.location) + [len(cds.translation)] + [ord(c) for c in cds.translation]
+    out += [-1 if original is None else original]
+    out += result(lambda: enc_pyloc(cds.get_sub_location_from_protein_coordinates(start, end)))
+
+    def written():
+        if fn == 7:
+            bio_cds = cds.to_biopython()[0]
+        else:
+            bio_again = record.to_biopython()
+            (bio_cds,) = [f for f in bio_again.features if f.type == "CDS"]
+            again = Record.from_biopython(bio_again, taxon="bacteria")
+            (cds2,) = again.get_cds_features()
+            if enc_pyloc(cds2.location) != enc_pyloc(cds.location) or cds2.translation != cds.translation:
+                raise ReloadMismatch(f"{cds2.location} {cds2.translation} != {cds.location} {cds.translation}")
+        return enc_pyloc(bio_cds.location) + [int(bio_cds.qualifiers.get("codon_start", ["-1"])[0])]
+    out += result(written)
+    return out
 
 
 def encode(fn, args):
@@ -145,6 +226,9 @@ def encode(fn, args):
     if fn == 6:
         parts, bases = args
         return enc_parts(parts) + [len(bases)] + list(bases)
+    if fn in (7, 8):
+        parts, codon_start, bases, table, start, end, _circular = args
+        return enc_parts(parts) + [codon_start, len(bases)] + list(bases) + [len(table)] + list(table) + [start, end]
     raise ValueError(fn)
 
 
@@ -286,8 +370,13 @@ RULE = ("genes of 1-4 exons (introns 0-5 bases, exons cut anywhere incl. inside 
         "records of 12-120 bases, 22% spanning the origin (also with an exon cut by the origin), 15% with 1-2 surplus bases, "
         "4% malformed (shuffled / overlapping / mixed-strand exons), partial (<, >) ends; protein ranges drawn with weight on "
         "exon borders, whole gene, first/last residue and on the rejection paths; codon_start 0-4; leader/tail lengths 0..total+1; "
-        "TTA offsets at every codon. Functions: convert_protein_position_to_dna, Feature.get_sub_location_from_protein_coordinates, "
+        "TTA offsets at every codon; CDS loading: the same genes as Bio SeqFeatures with /codon_start 2/3 (67%), 1, absent, "
+        "0/4, on a random record sequence (85% with the reading frame made stop-free), loaded by CDSFeature.from_biopython "
+        "and by Record.from_biopython (Biopython location classes, circular topology for origin-spanning genes), observed: "
+        "gene location, stored translation, _original_codon_start, one sub-location, the location and qualifier written out "
+        "by to_biopython / Record.to_biopython, and the gene read back from the written record. Functions: convert_protein_position_to_dna, Feature.get_sub_location_from_protein_coordinates, "
         "from_biopython(codon_start)+sub-location+to_biopython, Prepeptide.to_biopython, TTAResults.new_feature_from_other, "
+        "CDSFeature.from_biopython / Record.from_biopython load path, "
         "location.extract (the model's extraction assumption). Every implementation output is also judged by the decidable "
         "specification in Gallina (inside the gene, 3 bases per residue, reads exactly coordinates 3s..3e of the gene's reading "
         "order) and, for sub-locations, by extract+translate on a random sequence with Biopython. non-trivial = compound gene "
@@ -298,10 +387,14 @@ def known_classes():
     return {f.get("class"): f for f in common.load_known_findings("C09") if f.get("status") == "known"}
 
 
-def gen_case(rng):
+def gen_case(rng, table):
     """ -> (fn, args, gene) """
     r = rng.random()
+    if r < 0.07:
+        return gen_load_case(rng, 7, table)
     if r < 0.14:
+        return gen_load_case(rng, 8, table)
+    if r < 0.24:
         gene = gen_gene(rng)
         s, e = gen_range(rng, gene)
         return 1, (s, e, gene.parts), gene
@@ -353,6 +446,47 @@ def gen_case(rng):
     return 6, (gene.parts, bases), gene
 
 
+def shifted_gene(gene, off):
+    """ the gene as it is stored after the codon_start adjustment (first listed exon shortened at its 5' end) """
+    if off == 0:
+        return gene
+    s, e, st = gene.parts[0]
+    first = (s, e - off, st) if st == -1 else (s + off, e, st)
+    if first[0] >= first[1]:
+        return gene
+    return Gene([first] + gene.parts[1:], gene.n, gene.kind, gene.length - off)
+
+
+def remove_stops(gene, off, bases, table):
+    """ rewrites the record so that the reading frame starting at base `off` of the gene has no stop codon """
+    coords = []
+    for s, e, st in gene.parts:
+        coords += [(i, st) for i in (range(e - 1, s - 1, -1) if st == -1 else range(s, e))]
+    coords = coords[off:]
+    for k in range(0, len(coords) - 2, 3):
+        read = [3 - bases[i] if st == -1 else bases[i] for i, st in coords[k:k + 3]]
+        if table[16 * read[0] + 4 * read[1] + read[2]] == ord("*"):
+            i, st = coords[k]
+            bases[i] = 2 if st == -1 else 1     # read as C: CAA, CAG, CGA are not stop codons
+
+
+def gen_load_case(rng, fn, table):
+    """ a CDS as it appears in an input record: location, /codon_start (mostly 2 or 3), record sequence """
+    while True:
+        gene = gen_gene(rng, allow_malformed=(fn == 7))
+        if fn == 8 and (gene.strand not in (1, -1) or gene.length < 3):
+            continue
+        if feature_ok(gene.parts):
+            break
+    cs = rng.choice([2, 3, 2, 3, 2, 3, 1, -1, rng.choice([0, 4, 1, -1])])
+    off = cs - 1 if 1 <= cs <= 3 else 0
+    bases = [rng.randrange(4) for _ in range(gene.n)]
+    if gene.kind != "malformed" and rng.random() < 0.85:
+        remove_stops(gene, off, bases, table)
+    s, e = gen_range(rng, shifted_gene(gene, off))
+    return fn, (gene.parts, cs, bases, table, s, e, gene.kind == "spanning"), gene
+
+
 def describe(flat):
     return {"function": FN_NAMES.get(flat[1], flat[1] if flat[1] < 10 else f"specification of fn {flat[1] - 10}"),
             "flat_payload": flat[2:]}
@@ -369,6 +503,7 @@ def corpus():
     span_fwd = [(90, 102, 1), (0, 21, 1)]
     span_rev = [(0, 21, -1), (90, 102, -1)]
     multi = [(0, 4, 1), (10, 15, 1)]
+    slip = [(32, 43, 1), (42, 45, 1)]
     return [
         (2, (span_fwd, False, False, 0, 2), Gene(span_fwd, 102, "spanning", 33)),
         (2, (span_rev, False, False, 0, 2), Gene(span_rev, 102, "spanning", 33)),
@@ -376,7 +511,79 @@ def corpus():
         (5, (multi, 6), Gene(multi, 30, "plain", 9)),
         (3, (span_fwd, 2, 0, 2), Gene(span_fwd, 102, "spanning", 33)),
         (4, (span_fwd, 2, 2), Gene(span_fwd, 102, "spanning", 33)),
-    ]
+        (2, (slip, False, False, 3, 4), Gene(slip, 60, "malformed", 14)),
+    ] + load_corpus()
+
+
+def load_corpus():
+    """ 5'-partial genes (codon_start 2 / 3): forward single exon, forward two exons split inside a codon, reverse
+        single exon, reverse two exons; and an origin-spanning gene with codon_start 1 and 2 """
+    import random
+    rng = random.Random(99)
+    table = codon_table()
+    genes = [([(0, 35, 1)], 3), ([(45, 59, 1), (71, 91, 1)], 2), ([(101, 135, -1)], 2),
+             ([(30, 50, -1), (4, 20, -1)], 3), ([(130, 140, 1), (0, 21, 1)], 1), ([(130, 140, 1), (0, 21, 1)], 2)]
+    out = []
+    for fn in (7, 8):
+        for parts, cs in genes:
+            length = sum(e - s for s, e, _ in parts)
+            spanning = parts[0][0] == 130
+            gene = Gene(parts, 140, "spanning" if spanning else "plain", length)
+            bases = [rng.randrange(4) for _ in range(140)]
+            remove_stops(gene, cs - 1, bases, table)
+            out.append((fn, (parts, cs, bases, table, 1, 4, spanning), gene))
+    return out
+
+
+def judge_load(chk, i, fn, args, gene, verdict, out, report):
+    """ verdict of the Gallina specification on a loaded CDS: [0, location, translation, sub-location, written,
+        range applicable, gene class] or [1, error, gene class] """
+    parts, cs, _bases, _table, s, e, _circular = args
+    shown = [cs, s, e]
+    if len(verdict) not in (3, 7):
+        chk.violation("broken-correspondence", "specification function did not decode its input",
+                      {"theorem_or_correspondence": "spec encoding", "function": FN_NAMES[fn], "implementation": out})
+        return
+    cls = verdict[-1]
+    if cls in (2, 3) or cs not in (-1, 1, 2, 3):
+        chk.count("spec_no_verdict(out of range or malformed gene)")
+        return
+    off = max(0, cs - 1)
+    first_len = parts[0][1] - parts[0][0]
+    guard = cls == 0
+    if verdict[0] == 1:
+        if cls == 1 and off and len(parts) > 1 and verdict[1] == common.ERR["AssertionError"]:
+            chk.count(f"spec_fn{fn}_outside_guard_adjustment_FAILS")
+            report(i, fn, parts, shown, False, CLASS_CODON, "C09_cds_load")
+        elif first_len > off and gene.length - off >= 3 and gene.strand in (1, -1):
+            chk.count(f"spec_fn{fn}_{'guard' if guard else 'outside_guard'}_load_FAILS")
+            report(i, fn, parts, shown, guard, None, "C09_cds_load",
+                   f": the CDS cannot be loaded ({common.ERR_NAME.get(verdict[1], verdict[1])})")
+        else:
+            chk.count("spec_no_verdict(first exon not longer than the codon_start offset, or gene shorter than a codon)")
+        return
+    if first_len <= off:
+        chk.count("spec_no_verdict(first exon not longer than the codon_start offset, or gene shorter than a codon)")
+        return
+    _zero, ok_loc, ok_tr, ok_sub, ok_out, in_range, _cls = verdict
+    where = "guard" if guard else "outside_guard"
+    clauses = [(ok_loc, ": the gene's location does not read the annotated location from base codon_start-1 on"),
+               (ok_tr, ": the stored translation is not the translation of the gene's location"),
+               (ok_out, ": the location / codon_start written out differ from the annotated ones "
+                        "(or the gene read back differs)")]
+    good = all(ok for ok, _ in clauses)
+    chk.count(f"spec_fn{fn}_{where}_load_{'ok' if good else 'FAILS'}")
+    for ok, text in clauses:
+        if not ok:
+            report(i, fn, parts, shown, guard, None, "C09_cds_load", text)
+            return
+    if not in_range:
+        chk.count("spec_no_verdict(residue range outside the stored translation)")
+        return
+    chk.count(f"spec_fn{fn}_{where}_sub_{'ok' if ok_sub else 'FAILS'}")
+    if not ok_sub:
+        report(i, fn, parts, shown, guard, CLASS_SPANNING if cls == 1 else None, "C09_codon_start",
+               ": the sub-location does not cover the nucleotides that encode the residues of the stored translation")
 
 
 def run(chk):
@@ -390,8 +597,9 @@ def run(chk):
     known = known_classes()
     cases, impl_outs, meta = [], [], []
     fixed = corpus()
+    table = codon_table()
     for i in range(total):
-        fn, args, gene = fixed[i] if i < len(fixed) else gen_case(chk.rng)
+        fn, args, gene = fixed[i] if i < len(fixed) else gen_case(chk.rng, table)
         flat = [PROP, fn] + encode(fn, args)
         out = impl(fn, args)
         cases.append(flat)
@@ -405,13 +613,16 @@ def run(chk):
             chk.count("error_" + common.ERR_NAME.get(out[1], str(out[1])))
         if fn == 2 and (args[1] or args[2]):
             chk.count("partial_end_flags")
+        if fn in (7, 8):
+            chk.count(f"load_codon_start_{args[1] if args[1] >= 0 else 'absent'}")
         chk.note_case(flat, len(gene.parts) > 1 or gene.strand == -1,
                       {"function": FN_NAMES[fn], "gene": fmt_parts(gene.parts), "record_length": gene.n,
-                       "args": [a for a in args if not isinstance(a, list)], "implementation": out if fn != 6 else "..."})
+                       "args": [a for a in args if not isinstance(a, list)],
+                       "implementation": out if fn != 6 else "..."})
     model_outs = common.correspondence(chk, cases, impl_outs, spec_fn_offset=None, describe=describe)
 
     # ---- the specification evaluated on every implementation output (fn 2, 3, 4, 5)
-    judged = [i for i, (fn, _a, _g) in enumerate(meta) if fn in (2, 4, 5)]
+    judged = [i for i, (fn, _a, _g) in enumerate(meta) if fn in (2, 4, 5, 7, 8)]
     spec_cases = [[PROP, cases[i][1] + SPEC_OFFSET] + cases[i][2:] + impl_outs[i] for i in judged]
     # fn 3: class of the original gene, and the sub-location judged against the ADJUSTED gene
     cs_cases = []
@@ -435,13 +646,14 @@ def run(chk):
     reported = set()
     pending = []     # counterexamples; those inside the proved guard and the smallest first
 
-    def report(i, fn, parts, shown_args, guard, finding, theorem):
+    def report(i, fn, parts, shown_args, guard, finding, theorem, clause=""):
         replay = {"theorem_or_correspondence": theorem, "function": FN_NAMES[fn], "flat": cases[i],
                   "input": {"gene": fmt_parts(parts), "args": shown_args, "record_length": meta[i][2].n},
                   "implementation": impl_outs[i], "model": model_outs[i], "spec_ok": False, "guard": guard,
-                  "finding_class": finding}
+                  "finding_class": finding, "failed_clause": clause}
         if guard or finding is None:
-            pending.append((0, len(cases[i]), f"{FN_NAMES[fn]}: output violates the property inside the proved guard "
+            where = "inside the proved guard" if guard else "outside every recorded finding class"
+            pending.append((0, len(cases[i]), f"{FN_NAMES[fn]}: output violates the property {where}{clause} "
                             f"({fmt_parts(parts)}, args {shown_args})", replay))
         elif finding in known and impl_outs[i] == model_outs[i]:
             if finding not in reported:
@@ -455,17 +667,22 @@ def run(chk):
 
     for i, verdict in zip(judged, verdicts):
         fn, args, gene = meta[i]
+        if fn in (7, 8):
+            judge_load(chk, i, fn, args, gene, verdict, impl_outs[i], report)
+            continue
         if len(verdict) != 2:
             chk.violation("broken-correspondence", "specification function did not decode its input",
                           {"theorem_or_correspondence": "spec encoding", "flat": cases[i]})
             break
         ok, cls = verdict
+        if cls == 3 and fn not in (2, 4):
+            cls = 2     # overlapping exons: verdicts only for the sub-location functions
         total_res = gene.codons
         shown_args = [a for a in args if not isinstance(a, list)]
         if fn == 3:
             parts, cs, s, e = args
             out = impl_outs[i]
-            if cls == 2 or not 1 <= cs <= 3:
+            if cls in (2, 3) or not 1 <= cs <= 3:
                 chk.count("spec_no_verdict(out of range or malformed gene)")
                 continue
             if out[0] == 1:
@@ -492,12 +709,12 @@ def run(chk):
         if fn == 2:
             parts, end_after, start_before, s, e = args
             in_range = 0 <= s < e <= total_res
-            finding = CLASS_SPANNING if cls == 1 else None
+            finding = CLASS_SPANNING if cls == 1 else (CLASS_OVERLAP if cls == 3 else None)
             theorem = "C09_subloc"
         elif fn == 4:
             parts, ll, tl = args
             in_range = ll + tl < total_res
-            finding = CLASS_SPANNING if cls == 1 else None
+            finding = CLASS_SPANNING if cls == 1 else (CLASS_OVERLAP if cls == 3 else None)
             theorem = "C09_prepeptide_partition"
         else:
             parts, off = args
@@ -530,7 +747,10 @@ def run(chk):
     return chk.finish(RULE, trusted_extra=[
         "Biopython location semantics (start=min, end=max, strand=common or None, int membership half-open, "
         "extract = parts in listed order, reverse-complemented per part on strand -1) are assumptions of the model, "
-        "re-checked on every run (fn 6 and the extract+translate evaluation of every sub-location)"])
+        "re-checked on every run (fn 6 and the extract+translate evaluation of every sub-location)",
+        "Biopython Seq.translate (table 11, to_stop) is modelled as codon-by-codon lookup in the 64-entry table read from "
+        "Bio.Data.CodonTable on every run, over unambiguous ungapped bases; compared with the real translation of every "
+        "loaded CDS (fn 7, 8)"])
 
 
 def replay(chk, path):
@@ -538,6 +758,10 @@ def replay(chk, path):
     flat = doc["flat"]
     model = common.run_driver([flat])[0]
     print("model:", model, "recorded implementation:", doc.get("implementation"))
+    if flat[1] in (7, 8) and doc.get("implementation"):
+        print("specification verdict [0, location, translation, sub-location, written, range applicable, class] "
+              "(or [1, error, class]) on the recorded implementation output:",
+              common.run_driver([[flat[0], flat[1] + SPEC_OFFSET] + flat[2:] + doc["implementation"]])[0])
     if flat[1] in (2, 4, 5) and doc.get("implementation"):
         print("specification verdict [ok, class] on the recorded implementation output:",
               common.run_driver([[flat[0], flat[1] + SPEC_OFFSET] + flat[2:] + doc["implementation"]])[0])
